@@ -313,11 +313,13 @@ impl<'a> Run<'a> {
             self.metrics.lock().push(metrics);
         }
 
+        // Insert into updated map no matter what. This needs to happen
+        // before removing from running or someone else will start updating
+        // again.
+        self.updated.write().insert(module.clone().into_owned());
+
         // Remove from running.
         self.running.write().remove(module.as_ref());
-
-        // Insert into updated map no matter what.
-        self.updated.write().insert(module.into_owned());
     }
 
     /// Loads the file for the given URI.
